@@ -18,6 +18,7 @@ import z3
 
 from pyvc import ext_C20 as X
 from pyvc import lemmas as _lemmas
+from pyvc import progression as _progression
 from pyvc.ext_C20 import CAST, RND, ImgArr
 from pyvc.values import Iter, NArr, Obj, Opaque, PDict, PList, SArr, Sym, fresh_name, to_z3, zint
 
@@ -738,9 +739,13 @@ def reg_samplers(R):
         raises={"ValueError": ("only-for-an-explicit-offset-array-(its-truth-value-is-ambiguous)", lambda E, v, o: v["offset"] is not None)},
         returns=gs_result,
         options=dict(modular=True),
-        loops={0: dict(invariant=[("z-is-the-centre-of-the-next-slice", gs_inv("z")), ("samplers-yielded-so-far", gs_inv("yielded")),
-                                  ("every-yielded-centre-is-below-zmax", gs_inv("below"))],
-                       types={"__yield__": "ref"}, modifies=["__yield__"])},
+        # the loop contract is DERIVED from the loop as written (pyvc/progression.py: start, step, bound and loop form are read off the
+        # code, the derived invariants are proved like hand-written ones), so that every such detail reaches the postconditions below;
+        # the hand-written invariants (they name the local `z` of the while form) remain the contract of a loop outside that shape
+        loops={0: _progression.derived(fallback=dict(
+            invariant=[("z-is-the-centre-of-the-next-slice", gs_inv("z")), ("samplers-yielded-so-far", gs_inv("yielded")),
+                       ("every-yielded-centre-is-below-zmax", gs_inv("below"))],
+            types={"__yield__": "ref"}, modifies=["__yield__"]))},
         ensures=[
             ("first-sample-centre-is-coord_min+resolution/2-in-each-axis", gs_post("first")),
             ("x,y-range-and-stride-of-every-sampler", gs_post("xy")),
@@ -839,6 +844,29 @@ def tr_frames(E, v, o, k=None):
     return z3.And(n == upto, z3.ForAll([j], z3.Implies(z3.And(0 <= j, j < upto), z3.Select(cols[0], j) == want)))
 
 
+def tr_slices(E, v, o):
+    """the property's clause at the top level: the frames are, in order, the z slices at EVERY voxel centre  box_lo_z + (k + 1/2) res_z  that lies
+    below the top of the box handed to _get_samplers, each sampled over the x / y range of that box from half a voxel inside its lower corner
+    (follows from _get_samplers' postconditions at the call; stated here so that the function the property observes carries it)"""
+    p = E.ghost.get("samplers_result")
+    cs = calls(E, "ToImageStack._get_samplers")
+    if p is None or len(cs) != 1:
+        return False
+    lo = [to_z3(t, "real") for t in cs[0]["coord_min"].items]
+    hi = [to_z3(t, "real") for t in cs[0]["coord_max"].items]
+    st = res_of(v)
+    cols, nf = lview(v["result"])
+    n = zint(p.n)
+    j = z3.Int(fresh_name("j"))
+    ref = z3.Select(p.cols[0], j)
+    centre = lo[2] + st[2] / 2 + z3.ToReal(j) * st[2]
+    return z3.And(nf == n,
+                  z3.ForAll([j], z3.Implies(j >= 0, (j < n) == (centre < hi[2]))),
+                  z3.ForAll([j], z3.Implies(z3.And(0 <= j, j < n), z3.And(SP[2](ref) == centre, SP[5](ref) == centre + st[2] - EPS,
+                                                                           SP[0](ref) == lo[0] + st[0] / 2, SP[1](ref) == lo[1] + st[1] / 2, SP[3](ref) == hi[0], SP[4](ref) == hi[1],
+                                                                           SP[6](ref) == st[0], SP[7](ref) == st[1], SP[8](ref) == st[2]))))
+
+
 # --------------------------------------------------------------------------- _get_scene (traverse client rule)
 # Whole-scene statement: the scene's object list is in one-to-one correspondence with the (parent, child) edges of the tree --
 # ghost `at` (child node -> position of its edge's object) and `who` (position -> child node) are mutually inverse -- and the
@@ -875,9 +903,35 @@ def scene_wf(which):
     return (which, f)
 
 
+EFFECT_EDGE = "effect/object-added-while-visiting-child-k-of-n-is-the-round-cone-of-the-edge-(n,child-k)-or-the-containing-sphere-when-nested"
+
+
+def row_is(row, exp):
+    return z3.And(*[to_z3(g, kd if kd != "ref" else "int") == e for g, e, kd in zip(row, exp, X.SCENE_ROW_KINDS)])
+
+
+def sc_add_hook(E, scene, row):
+    """EFFECT obligation at every scene.add_object(...) of _get_scene (its closure `leave` runs on node handles of the tree): the object
+    that reaches the scene while child k of node n is visited is the one the property names for the edge (n, child k).  Externally
+    meaningful (what the rasteriser will draw), so a change that adds another object is a failed obligation of the property, not an
+    incomplete proof; the loop invariants (internal) only carry it to the postcondition."""
+    from swcgeom.core.tree import Tree
+
+    v = E.visible_vars()
+    node, ch, k = v.get("n"), v.get("children"), v.get("_k0")
+    mat = v.get("material")
+    ok = False
+    if isinstance(node, Obj) and node.cls is Tree.Node and getattr(ch, "cols", None) is not None and k is not None and hasattr(mat, "z"):
+        t, p, c = node.fields["attach"], to_z3(node.fields["idx"], "int"), z3.Select(ch.cols[0], to_z3(k, "int"))
+        sc_nested_def(E, t, p, c)
+        ok = row_is(row, sc_expected(t, p, c, mat.z))
+    E.prove(f"{E.cur_contract.short}/{EFFECT_EDGE}", ok, "postcondition")
+
+
 def sc_setup(S):
     from contracts.common import nof, sym_tree
 
+    S.eng.ghost["scene_add_hook"] = sc_add_hook
     t = sym_tree(S, "t", frozen=True)
     G = Obj(GhostEdgeMap, dict(at=SArr(z3.K(I_, z3.IntVal(-1)), nof(t), "int", name="at"), who=SArr(z3.K(I_, z3.IntVal(-1)), nof(t), "int", name="who")))
     return dict(self=tis_obj(S), x=t, G20=G)
@@ -1017,21 +1071,25 @@ def sc_loop(which):
     return f
 
 
-def sc_loop_hint(E, vars):
+def sc_loop_hint(E, vars, back=1):
     """proof step: the code's test  norm(a-b) <= |ra-rb|  is the spec's square-root-free test"""
     from contracts.common import col
 
-    c, node = vars.get("c"), vars.get("n")
-    if not (isinstance(c, Obj) and isinstance(node, Obj)):
+    # the child being visited is children[_k0] (the ghost index of the loop), whatever the loop variable is called
+    node, ch, k = vars.get("n"), vars.get("children"), vars.get("_k0")
+    if not isinstance(node, Obj) or getattr(ch, "cols", None) is None or k is None:
         return
     t = node.fields["attach"]
     r = col(t, "r").arr
-    d = z3.Select(r, to_z3(node.fields["idx"], "int")) - z3.Select(r, to_z3(c.fields["idx"], "int"))
-    sc_nested_def(E, t, to_z3(node.fields["idx"], "int"), to_z3(c.fields["idx"], "int"))
-    for key, y in E.ghost.items():
-        if isinstance(key, tuple) and key and key[0] == "sqrt":
-            _lemmas.use(E, "nonneg-below-abs-iff-square-below-square", y.z, d)
-            _lemmas.use(E, "nonneg-below-abs-iff-square-below-square", y.z, -d)
+    # (at an add_object call _k0 is the child being visited: back = 0; when the invariant is re-proved it has already been advanced: back = 1)
+    for kk in (to_z3(k, "int") - back,):
+        cz = z3.Select(ch.cols[0], z3.simplify(kk))
+        d = z3.Select(r, to_z3(node.fields["idx"], "int")) - z3.Select(r, cz)
+        sc_nested_def(E, t, to_z3(node.fields["idx"], "int"), cz)
+        for key, y in list(E.ghost.items()):
+            if isinstance(key, tuple) and key and key[0] == "sqrt":
+                _lemmas.use(E, "nonneg-below-abs-iff-square-below-square", y.z, d)
+                _lemmas.use(E, "nonneg-below-abs-iff-square-below-square", y.z, -d)
 
 
 def sc_post(which):
@@ -1074,7 +1132,7 @@ def reg_scene(R, scene_result):
           inlined_loops={LV: {0: dict(invariant=[("one-object-per-child-so-far", sc_loop("count")), ("earlier-objects-untouched", sc_loop("kept")),
                                                  ("object-j-is-the-edge-(n,child-j)", sc_loop("edges"))],
                                       modifies=["scene.objects"])}},
-          options=dict(traverse_rule=rule, hints={"loop0/preserved/object-j-is-the-edge-(n,child-j)": sc_loop_hint}),
+          options=dict(traverse_rule=rule, hints={"loop0/preserved/object-j-is-the-edge-(n,child-j)": sc_loop_hint, EFFECT_EDGE: lambda E, vars: sc_loop_hint(E, vars, back=0)}),
           notes="traverse client rule; J: the scene's objects are in bijection (ghost at / who) with the edges below the nodes left so far; "
                 "the leave step runs the REAL closure on a node with a symbolic number of children (its loop cut by the invariants above)")
 
@@ -1099,6 +1157,7 @@ def reg_transform(R):
             ("one-scene-built-from-this-tree", tr_scene),
             ("samplers-requested-once-for-that-box-with-the-default-half-voxel-offset", tr_samplers_call),
             ("one-uint8-frame-per-z-slice-in-order-red-channel-times-255", tr_frames),
+            ("one-slice-for-every-voxel-centre-below-the-box-top-in-order-each-over-the-x,y-range-of-the-box", tr_slices),
         ],
         notes="tree of symbolic size n >= 1; the frame loop is cut by an invariant over the generator's symbolic yield list",
     )
@@ -1122,6 +1181,13 @@ def _add_object(eng, recv, args, kwargs):
     sdf, mat = obj.params
     row = tuple([X.SDF_TAG[sdf.kind]] + list(sdf.params) + [Sym(mat.z, "ref")])
     log = eng.spec_extra["scene_objects"]
+    # EFFECT obligation (see sc_add_hook): the object added while child k of n is visited is the property's object of the edge (n, child k)
+    v = eng.visible_vars()
+    node, ch, k = v.get("n"), v.get("children"), v.get("_k0")
+    ok = False
+    if isinstance(node, Opaque) and getattr(ch, "cols", None) is not None and k is not None:
+        ok = row_is(row, lv_expected(node.z, z3.Select(ch.cols[0], to_z3(k, "int")), eng.spec_extra["material"].z))
+    eng.prove(f"{eng.cur_contract.short}/{EFFECT_EDGE}", ok, "postcondition")
     eng.models.LIST_METHODS["append"](eng, log, [row], {})
     return None
 
@@ -1181,16 +1247,17 @@ def _le_abs_sq(y, t):
     return z3.Implies(y >= 0, (y <= z3.If(t >= 0, t, -t)) == (y * y <= t * t))
 
 
-def lv_hint(E, vars):
+def lv_hint(E, vars, back=1):
     """proof step: the code's test  norm(a-b) <= |ra-rb|  is the spec's square-root-free test"""
-    c = vars.get("c")
-    if not isinstance(c, Opaque):
+    node, ch, k = vars.get("n"), vars.get("children"), vars.get("_k0")
+    if not isinstance(node, Opaque) or getattr(ch, "cols", None) is None or k is None:
         return
-    roots = [y for k, y in E.ghost.items() if isinstance(k, tuple) and k and k[0] == "sqrt"]
-    t = NR(vars["n"].z) - NR(c.z)
-    for y in roots:
-        _lemmas.use(E, "nonneg-below-abs-iff-square-below-square", y.z, t)
-        _lemmas.use(E, "nonneg-below-abs-iff-square-below-square", y.z, -t)
+    roots = [y for k_, y in E.ghost.items() if isinstance(k_, tuple) and k_ and k_[0] == "sqrt"]
+    for kk in (to_z3(k, "int") - back,):  # at an add_object call _k0 is the child being visited (back = 0); at `preserved` it has been advanced (back = 1)
+        t = NR(node.z) - NR(z3.Select(ch.cols[0], z3.simplify(kk)))
+        for y in roots:
+            _lemmas.use(E, "nonneg-below-abs-iff-square-below-square", y.z, t)
+            _lemmas.use(E, "nonneg-below-abs-iff-square-below-square", y.z, -t)
 
 
 def reg_leave(R):
@@ -1198,7 +1265,7 @@ def reg_leave(R):
         f"{TR}:ToImageStack._get_scene.<locals>.leave",
         prop="C20",
         variants={"any-number-of-children": lv_setup},
-        options=dict(hints={"loop0/preserved/object-j-is-the-edge-(n,child-j)": lv_hint}),
+        options=dict(hints={"loop0/preserved/object-j-is-the-edge-(n,child-j)": lv_hint, EFFECT_EDGE: lambda E, vars: lv_hint(E, vars, back=0)}),
         loops={0: dict(invariant=[("one-object-per-child-so-far", lv_clause("count")), ("earlier-objects-untouched", lv_clause("kept")),
                                   ("object-j-is-the-edge-(n,child-j)", lv_clause("edges"))],
                        modifies=["scene_objects"])},
@@ -1236,7 +1303,9 @@ def _close_all(R):
         c.ensures = [fix(x) for x in c.ensures]
         c.raises = {k: fix(x) for k, x in c.raises.items()}
         for sp in c.loops.values():
-            sp["invariant"] = [fix(x) for x in sp.get("invariant", [])]
+            sp = getattr(sp, "fallback", sp)  # a derived loop contract: its hand-written fallback
+            if isinstance(sp, dict):
+                sp["invariant"] = [fix(x) for x in sp.get("invariant", [])]
 
 
 from contracts import C20_io as _IO  # noqa: E402  (second contract file of this property: readers, dispatch, writer plumbing)
